@@ -36,7 +36,15 @@ def lattice(rep, tier, seed):
         rep.extra["lattice_states_" + k] = len(elems)
         planar = k == "SE2"
         pairs = [(e, g) for e in elems for g in gens["gens"]]
+        # every reachable state is exported and model-checked; the replay takes every (state, generator) pair up to a cap
+        # (quick: a ninth, at most 3000; thorough: at most 8000 per kind, a seed-rotated stride of the sorted list):
+        # exact validation of one lattice event costs 0.1-0.3 s in TLC (10x10 adjoint by conjugation)
+        cap = 3000 if tier == "quick" else 8000
         if tier == "quick": pairs = pairs[seed % 9::9]
+        if len(pairs) > cap:
+            step = (len(pairs) + cap - 1) // cap
+            pairs = pairs[seed % step::step]
+        rep.extra["lattice_pairs_replayed_" + k] = len(pairs)
         pts = gens["points"]
         lines = ["X %s G %s P %d %s" % (" ".join(map(str, flat(e, planar))), " ".join(map(str, flat(g, planar))), len(pts), " ".join(str(c) for p in pts for c in p)) for e, g in pairs]
         evs = []
